@@ -279,6 +279,26 @@ func genPipe(g *G, repo string, out io.Writer, full bool) {
 	for _, entry := range []int{0, 1, 2, 3} {
 		emit(entry, "eval:conflict", evalConflictProfile, okData, oracleFor(6, "err"))
 	}
+	// sizes: a document of several hundred KiB (valid; cut short; valid with a profile that fails late) - the stages of a call
+	// neither overlap nor change their order with the size of its inputs
+	{
+		var nodes []string
+		for k := 0; len(nodes)*200 < 700*1024; k++ {
+			nodes = append(nodes, fmt.Sprintf(`{"@id":"http://ex.org/big/%d","@type":["http://ex.org/v#U"],"http://ex.org/v#q":[{"@value":"%s"}]}`, k, strings.Repeat("padding ", 18)))
+		}
+		big := "[" + okData[1:len(okData)-1] + "," + strings.Join(nodes, ",") + "]"
+		for _, entry := range []int{0, 1, 2, 3} {
+			emit(entry, "size:big-data", okProfile, big, oracleFor(-1, ""))
+		}
+		emit(0, "size:big-data-cut", okProfile, big[:len(big)-7], oracleFor(3, "err"))
+		emit(2, "size:big-data-cut", okProfile, big[:len(big)-7], oracleFor(3, "err"))
+		for _, pv := range profVariants {
+			if pv.name == "rego-syntax" || pv.name == "unknown-prefix" || pv.name == "yaml-syntax" {
+				emit(0, "size:big-data+profile:"+pv.name, pv.text, big, oracleFor(pv.fail, pv.how))
+				emit(2, "size:big-data+profile:"+pv.name, pv.text, big, oracleFor(pv.fail, pv.how))
+			}
+		}
+	}
 	// slow consumers on small channels: whatever the reader's pace, the same events arrive in the same order
 	stalls := []int{0, 1, 3, 5, 8, 11, 12, 13}
 	if full {
